@@ -326,12 +326,17 @@ func schedules(t *testing.T, cold bool) {
 			os.WriteFile(dir+"/inflight-c16-lastcase.txt", []byte(hist.String()), 0o644)
 		}
 
-		// sequential reference results
+		// sequential reference results, computed on a deep copy of the font
+		// (same value, no shared object): what each call returns "alone".
+		// State that the library keeps outside the font, keyed by the
+		// identity of the font's objects, cannot leak from the reference
+		// calls into the concurrent ones or the other way round.
+		fref := fontcmp.DeepCopy(f)
 		want := make([][]string, ng)
 		reference := func() {
 			for i, p := range plans {
 				for _, o := range p {
-					want[i] = append(want[i], run(f, o))
+					want[i] = append(want[i], run(fref, o))
 				}
 			}
 		}
